@@ -14,6 +14,7 @@
 //   double-alloc           allocate() returned an object that is currently allocated to some holder
 //   null-alloc             allocate() returned nullptr
 //   corrupted              the marker written into the object by its holder is not intact at deallocation time
+//   destroyed-while-allocated   the pool ran the destructor of an object that is currently allocated to a holder
 //   foreign-object         bounded pool returned an object outside its preallocated block
 //   heap-while-free        vyukov_queue_pool went to the heap although an object of the preallocated block was free
 //                          during the whole call (deallocate() had returned before allocate() was invoked, nobody got it,
@@ -44,7 +45,21 @@ namespace cm = cds::memory;
 static const int MAXTH = 16;
 static const size_t MAXCAP = 8;
 
-struct Obj { long owner; long nonce; long check; long pad; };
+// The pooled type has a constructor and a destructor with visible effects, and each of them is a scheduling point:
+// the pools construct an object after taking it out of the free queue and destroy it before putting it back, and
+// that order matters (an object destroyed after it is visible to other allocators is destroyed under its next holder).
+static atomics::atomic<int> g_obj_point( 0 );
+static void ( *g_on_destroy )( void* ) = nullptr;
+struct Obj {
+    long owner; long nonce; long check; long pad;
+    Obj() : owner( 0 ), nonce( 0 ), check( 0 ), pad( 0 ) { (void) g_obj_point.load(); }
+    ~Obj()
+    {
+        (void) g_obj_point.load();
+        if ( g_on_destroy ) g_on_destroy( this );
+        owner = -1; nonce = -1; check = 0; pad = -1;
+    }
+};
 
 struct dyn_traits : cm::vyukov_queue_pool_traits {};
 struct static4_traits : cm::vyukov_queue_pool_traits {
@@ -161,8 +176,21 @@ struct Fixture {
     void fail( std::string const& s ) { failed = true; if ( failure.empty()) failure = s; }
     int block_index( Obj* p ) const { return prealloc && P->d.first <= p && p < P->d.last ? int( p - P->d.first ) : -1; }
 
+    static Fixture*& current() { static Fixture* f = nullptr; return f; }
+    static void on_destroy( void* q )
+    {
+        Fixture* f = current();
+        if ( !f ) return;
+        auto it = f->live.find( static_cast<Obj*>( q ));
+        if ( it != f->live.end())
+            f->fail( "destroyed-while-allocated object " + std::to_string( it->second.label ) + " destroyed by the pool while allocated to " + std::to_string( it->second.holder ));
+    }
+    ~Fixture() { if ( current() == this ) { current() = nullptr; g_on_destroy = nullptr; } }
+
     explicit Fixture( Case const& c ) : variant( c.variant )
     {
+        current() = this;
+        g_on_destroy = &Fixture::on_destroy;
         std::string const& v = variant;
         if ( v == "vyukov2" ) P.reset( new PoolV< cm::vyukov_queue_pool<Obj, dyn_traits> >( 2 ));
         else if ( v == "vyukov4" ) P.reset( new PoolV< cm::vyukov_queue_pool<Obj, dyn_traits> >( 4 ));
